@@ -378,7 +378,8 @@ def gen_case(rng, idx, kinds):
 
 
 WALL_OPS = ["wall nanosleep 0 15000000", "wall usleep 12000", "wall timedlock 15", "wall timedjoin 15",
-            "wall nanosleep 0 0", "wall usleep 0", "wall timedlock 0", "wall sleep 0"]
+            "wall nanosleep 0 0", "wall usleep 0", "wall timedlock 0", "wall sleep 0"] + \
+           ["wall nanosleep 0 3900000", "wall usleep 1500", "wall nanosleep 0 700000", "wall usleep 3900"] * 5
 
 
 def nontrivial(ops):
